@@ -16,6 +16,9 @@ type Ctx struct {
 	Tier string
 	R    *Report
 	exps map[string]*Exploration
+
+	runtime    *EmittedPkg
+	runtimeErr error
 }
 
 func (c *Ctx) Thorough() bool { return c.Tier == "thorough" }
